@@ -413,6 +413,15 @@ def check(run, project):
         c09.check(RuleView(run, "S3", "P8"), project)
     except AnalysisError as ex:
         run.info(f"P8: the stream's encryption predicate could not be followed ({ex}); not judged here (C09 reports it)")
+    # P10 (= C01-F): the synthesised encrypted layout is chosen for an area exactly when a session of that message asks for
+    # it in that direction (command: decrypt, response: encrypt) - else the decode of one message and the object rebuilt from
+    # its events (which goes by the area's field names) disagree about the type
+    from . import c01 as _c01
+    from ..roles import MarshalRoles as _MR10
+    try:
+        _c01.framing(RuleView(run, "F", "P10"), _MR10(project), ctx.layout(project))
+    except AnalysisError as ex:
+        run.info(f"P10: the message walkers could not be followed ({ex}); not judged here (C01 reports it)")
     # P9 (= C15-F1): "the same input with the same arguments": the arguments reach the decoder through every front-end on
     # every branch (a branch that drops them decodes with the defaults, and the result no longer compares equal to the
     # decode of the same message with the same arguments through another branch)
